@@ -972,10 +972,15 @@ func (r *RouteExpr) Params() []string {
 // FullPaths returns the endpoint full paths computed by concatenating the
 // service base paths with the route specific path.
 func (r *RouteExpr) FullPaths() []string {
+	return r.fullPaths(make(map[*HTTPServiceExpr]struct{}))
+}
+
+// fullPaths implements FullPaths, see HTTPServiceExpr.fullPaths.
+func (r *RouteExpr) fullPaths(seen map[*HTTPServiceExpr]struct{}) []string {
 	if r.IsAbsolute() {
 		return []string{httppath.Clean(r.Path[1:])}
 	}
-	bases := r.Endpoint.Service.FullPaths()
+	bases := r.Endpoint.Service.fullPaths(seen)
 	res := make([]string, len(bases))
 	for i, b := range bases {
 		res[i] = httppath.Clean(path.Join(b, r.Path))
